@@ -25,9 +25,9 @@ def gen_scenario(rng, index):
     r0 = rng.random()
     # 'cold': nothing of the package has run in the process before the threads start (the sequential reference is taken
     # afterwards): first-use / lazy-initialisation races are only visible here
-    family = "race" if r0 < 0.5 else ("cold" if r0 < 0.6 else "swarm")
+    family = "race" if r0 < 0.45 else ("cold" if r0 < 0.65 else "swarm")
     progs = []
-    n_base = rng.choice([1, 2, 2, 3])
+    n_base = rng.choice([1, 2, 2, 3]) if family != "cold" else 1
     shared_name = rng.choice(["exp_a", "exp_b"])
     for _ in range(n_base):
         opts = {"splitters": (1, 3), "p_comment": rng.choice([0.0, 0.05, 0.15]), "p_kwprefix": 0.0, "p_shared_field": 0.0}
@@ -36,7 +36,7 @@ def gen_scenario(rng, index):
         if rng.random() < 0.6:
             opts["name"] = shared_name
         progs.append(gen.gen_program(rng, f"r{index}t{len(progs)}", **opts))
-    for _ in range(rng.choice([1, 2, 2, 3])):
+    for _ in range(rng.choice([1, 2, 2, 3]) if family != "cold" else rng.choice([0, 0, 1])):
         progs.append(gen.variant_of(rng, rng.choice(progs[:n_base]), f"r{index}t{len(progs)}"))
     n_valid = len(progs)
     for _ in range(rng.choice([0, 0, 1, 1, 2])):
@@ -49,7 +49,7 @@ def gen_scenario(rng, index):
     mix = rng.choice(["recompile-heavy", "mixed", "construct-heavy", "call-heavy"])
     if family == "race":
         n_shared, n_threads, max_ops, mix = 1, rng.choice([2, 2, 2, 3, 4]), 2, rng.choice(["race", "race", "recompile-heavy", "call-vs-recompile",
-                                                                                          "call-vs-recompile"])
+                                                                                          "call-vs-recompile", "call-vs-recompile"])
     if family == "cold":
         n_shared, n_threads, max_ops, mix = 0, rng.choice([2, 2, 3, 4]), 2, "cold"
     shared = [rng.randrange(n_valid) for _ in range(n_shared)]
@@ -86,16 +86,19 @@ def gen_scenario(rng, index):
     pk = rng.choice(["bernoulli", "bernoulli", "targeted", "targeted", "targeted", "pct", "park", "park"])
     if family == "race" and rng.random() < 0.6:
         pk = rng.choice(["targeted", "park", "park"])
+    if family == "cold":
+        # first-use races: one thread should get well ahead of the others before they start
+        pk = rng.choice(["pct", "pct", "bernoulli", "targeted", "park"])
     if pk == "bernoulli":
         # every switch costs two OS context switches: keep the dense policy for the small 'race' workloads
-        p = rng.choice([0.3, 0.03, 0.003]) if family == "race" else rng.choice([0.03, 0.003, 0.0003])
+        p = rng.choice([0.3, 0.03, 0.003]) if family == "race" else rng.choice([0.03, 0.003, 0.0003, 0.0003])
         policy = {"kind": "bernoulli", "p_line": p, "p_hot": p}
     elif pk == "targeted":
         policy = {"kind": "targeted", "p_line": rng.choice([0.0005, 0.005]), "p_hot": rng.choice([0.1, 0.3, 0.5])}
     elif pk == "park":
         policy = {"kind": "park", "p_line": rng.choice([0.0, 0.0005]), "p_hot": rng.choice([0.0, 0.02, 0.1]),
                   "k_max": rng.choice([40, 160, 160, 400]), "need": rng.choice([1, 1, 2]),
-                  "mode": rng.choice(["late", "late", "uniform"]), "back": rng.randrange(0, 16)}
+                  "mode": rng.choice(["late", "late", "uniform", "uniform", "fixed"]), "back": rng.randrange(0, 16)}
     else:
         policy = {"kind": "pct", "d": rng.choice([1, 2, 3])}
     return {"index": index, "texts": texts, "shared": shared, "threads": th, "policy": policy, "sched_stream": "sched",
@@ -156,9 +159,14 @@ class Runner:
             return threads.PCTChooser(rng, len(sc["threads"]), est_steps, pol["d"])
         if pol["kind"] == "park":
             late = None
-            if pol.get("mode") == "late" and judged is not None:
-                late = (self.hot_ends(sc, judged), pol.get("back", 0))
-            return threads.ParkChooser(rng, len(sc["threads"]), pol["p_line"], pol["p_hot"], pol.get("k_max", 160), pol.get("need", 1), late)
+            k_max = pol.get("k_max", 160)
+            if judged is not None:
+                ends = self.hot_ends(sc, judged)
+                if pol.get("mode") == "late":
+                    late = (ends, pol.get("back", 0))
+                elif pol.get("mode") == "uniform":
+                    k_max = max(8, max((e[-1] for e in ends if e), default=k_max))
+            return threads.ParkChooser(rng, len(sc["threads"]), pol["p_line"], pol["p_hot"], k_max, pol.get("need", 1), late)
         return threads.BernoulliChooser(rng, pol["p_line"], pol["p_hot"])
 
     def run(self, sc, seed, decisions=None):
@@ -296,6 +304,7 @@ class Runner:
 
     def check_history(self, sc, judged, hist):
         texts = sc["texts"]
+        after = " (cold run: the sequential reference was taken AFTER the race, in the same process)" if sc.get("family") == "cold" else ""
         overlaps = 0
         wcache = {}
         for r in hist:
@@ -305,11 +314,11 @@ class Runner:
                 if acc and r["out"][0] == "raise":
                     raise Violation(k + "-raised-on-valid-text",
                                     {"thread": r["th"], "op_index": r["oi"], "tid": texts[r["t"]]["tid"], "got": r["out"],
-                                     "why": "sequentially this %s succeeds" % k})
+                                     "why": "sequentially this %s succeeds%s" % (k, after)})
                 if not acc and r["out"][0] != "raise":
                     raise Violation(k + "-accepted-invalid-text",
                                     {"thread": r["th"], "op_index": r["oi"], "tid": texts[r["t"]]["tid"], "got": r["out"],
-                                     "why": "sequentially this %s raises %s" % (k, judged[r["t"]].get("exc"))})
+                                     "why": "sequentially this %s raises %s%s" % (k, judged[r["t"]].get("exc"), after)})
                 if k == "new" and acc:
                     for f, got in zip(texts[r["t"]]["panel"], r["probes"]):
                         exp = outcome_of(judged[r["t"]]["ev"], **f)
@@ -356,6 +365,21 @@ class Runner:
                 raise Violation("quiescent-state-is-no-completed-recompile",
                                 {"slot": s, "candidates": [texts[x]["tid"] for x in cur], "observed": obs[:6],
                                  "why": "with nothing in flight the evaluator behaves like none of the last completed recompiles"})
+            # (a') every call issued during the race, issued again now, returns what the evaluator's (single) current text returns
+            x0 = ok_for[0]
+            seen_f = set()
+            for r in hist:
+                if r["op"] == "call" and r["s"] == s:
+                    key = json.dumps(r["f"], sort_keys=True)
+                    if key in seen_f:
+                        continue
+                    seen_f.add(key)
+                    got, exp = outcome_of(ev, **r["f"]), outcome_of(judged[x0]["ev"], **r["f"])
+                    if got != exp and all(got != outcome_of(judged[x]["ev"], **r["f"]) for x in ok_for):
+                        raise Violation("quiescent-call-differs",
+                                        {"slot": s, "serving": texts[x0]["tid"], "fields": r["f"], "got": got, "expected": exp,
+                                         "why": "a call first made during the race, repeated with nothing in flight, does not return what the "
+                                                "evaluator's current experiment returns sequentially"})
             # (b) a recompile with nothing in flight must take effect
             # Order matters: the first recompile must be to a text the evaluator does NOT currently serve
             # (a stale "already compiled" marker left by the race would make exactly that one a no-op),
@@ -377,7 +401,8 @@ class Runner:
                 n += 1
                 if o[0] == "raise":
                     raise Violation("quiescent-recompile-raised", {"slot": s, "tid": texts[x]["tid"], "got": o})
-                for f in texts[x]["panel"]:
+                race_fields = [r["f"] for r in hist if r["op"] == "call" and r["s"] == s][:6]
+                for f in texts[x]["panel"] + race_fields:
                     got, exp = outcome_of(ev, **f), outcome_of(judged[x]["ev"], **f)
                     if got != exp:
                         raise Violation("quiescent-recompile-ignored",
@@ -644,7 +669,7 @@ def master(tier, seed):
                 harness.append(f"run {rec['index']}: {rec['error']}")
     except HarnessError as e:
         harness.append(str(e))
-    paths, known_hits, seen = [], [], set()
+    paths, known_hits, seen, unreproduced = [], [], set(), []
     for rec in sorted(viol_recs, key=lambda r: r["index"]):
         sig = signature_of(rec["scenario"], rec["vclass"])
         key = json.dumps(sig, sort_keys=True)
@@ -666,7 +691,12 @@ def master(tier, seed):
         if rc == 1:
             paths.append(path)
         else:
-            harness.append(f"replay of {path} in a fresh interpreter did not reproduce (rc={rc}): {so[-300:]} {se[-300:]}")
+            # never reported as a violation; only fatal if nothing else reproduces (see driver.finish)
+            unreproduced.append(f"replay of {path} in a fresh interpreter did not reproduce (rc={rc}): {so[-200:]} {se[-200:]}")
+            try:
+                os.replace(path, path + ".unreproduced")
+            except OSError:
+                pass
     wall = time.monotonic() - t0
     runs = agg.get("runs", 0)
     cov = {
@@ -710,4 +740,4 @@ def master(tier, seed):
         harness.append("no run was executed")
     print(f"C17 {tier}: runs={runs} steps={agg.get('steps', 0)} switches={agg.get('switches', 0)} interleavings={len(interleavings)} "
           f"violations_raw={agg.get('violations', 0)} reported={len(paths)} wall={wall:.1f}s")
-    return driver.finish(PROP, paths, known_hits, harness)
+    return driver.finish(PROP, paths, known_hits, harness, unreproduced)
